@@ -76,6 +76,52 @@ fn t_key(a: u32) -> u32 {
     b ^ b.rotate_left(13) ^ b.rotate_left(23)
 }
 
+/// Inverse of the linear map of a T function given by its rotation set (Gaussian elimination over GF(2) on the 32x32 matrix).
+fn lin_inv(rots: &[u32], y: u32) -> u32 {
+    let l = |b: u32| rots.iter().fold(0u32, |acc, r| acc ^ b.rotate_left(*r));
+    // basis[b] = (image with leading bit b, its preimage)
+    let mut basis = [(0u32, 0u32); 32];
+    for i in 0..32 {
+        let (mut img, mut pre) = (l(1u32 << i), 1u32 << i);
+        while img != 0 {
+            let b = (31 - img.leading_zeros()) as usize;
+            if basis[b].0 == 0 {
+                basis[b] = (img, pre);
+                break;
+            }
+            img ^= basis[b].0;
+            pre ^= basis[b].1;
+        }
+    }
+    let (mut x, mut y) = (0u32, y);
+    while y != 0 {
+        let b = (31 - y.leading_zeros()) as usize;
+        assert!(basis[b].0 != 0, "linear map is not invertible");
+        y ^= basis[b].0;
+        x ^= basis[b].1;
+    }
+    x
+}
+
+fn tau_inv(b: u32) -> u32 {
+    let s = sbox();
+    let mut inv = [0u8; 256];
+    for i in 0..256 {
+        inv[s[i] as usize] = i as u8;
+    }
+    let v = b.to_be_bytes();
+    u32::from_be_bytes([inv[v[0] as usize], inv[v[1] as usize], inv[v[2] as usize], inv[v[3] as usize]])
+}
+
+/// The data-path round transform T and its inverse (T is a bijection on 32-bit words).
+pub fn t_data(a: u32) -> u32 {
+    t_enc(a)
+}
+
+pub fn t_data_inv(y: u32) -> u32 {
+    tau_inv(lin_inv(&[0, 2, 10, 18, 24], y))
+}
+
 pub fn ck(i: usize) -> u32 {
     let b = |j: usize| (((4 * i + j) * 7) % 256) as u8;
     u32::from_be_bytes([b(0), b(1), b(2), b(3)])
@@ -145,6 +191,37 @@ impl Sm4 {
             out[4 * i..4 * i + 4].copy_from_slice(&x[35 - i].to_be_bytes());
         }
         out
+    }
+
+    /// The input block for which the state entering round `round` (0..32) of encryption (resp. decryption) is `state` = (X_i, X_i+1, X_i+2, X_i+3):
+    /// the rounds before it are run backwards.
+    pub fn block_with_state_at_round(&self, round: usize, state: [u32; 4], decrypt: bool) -> [u8; 16] {
+        let mut x = [0u32; 36];
+        x[round..round + 4].copy_from_slice(&state);
+        for j in (0..round).rev() {
+            let rk = if decrypt { self.rk[31 - j] } else { self.rk[j] };
+            x[j] = x[j + 4] ^ t_enc(x[j + 1] ^ x[j + 2] ^ x[j + 3] ^ rk);
+        }
+        let mut out = [0u8; 16];
+        for i in 0..4 {
+            out[4 * i..4 * i + 4].copy_from_slice(&x[i].to_be_bytes());
+        }
+        out
+    }
+
+    /// The words (X_i, T input, T output, X_i+4) of round `round` for `block`.
+    pub fn round_trace(&self, block: &[u8; 16], round: usize, decrypt: bool) -> (u32, u32, u32, u32) {
+        let mut x = [0u32; 36];
+        for i in 0..4 {
+            x[i] = u32::from_be_bytes([block[4 * i], block[4 * i + 1], block[4 * i + 2], block[4 * i + 3]]);
+        }
+        for i in 0..=round {
+            let rk = if decrypt { self.rk[31 - i] } else { self.rk[i] };
+            x[i + 4] = x[i] ^ t_enc(x[i + 1] ^ x[i + 2] ^ x[i + 3] ^ rk);
+        }
+        let rk = if decrypt { self.rk[31 - round] } else { self.rk[round] };
+        let tin = x[round + 1] ^ x[round + 2] ^ x[round + 3] ^ rk;
+        (x[round], tin, t_enc(tin), x[round + 4])
     }
 
     pub fn encrypt(&self, block: &[u8; 16]) -> [u8; 16] {
@@ -332,6 +409,15 @@ pub fn self_test() -> Result<(), String> {
     }
     if c.decrypt(&c.encrypt(&key)) != key {
         return Err("reference SM4 decrypt".into());
+    }
+    for y in [0u32, 1, 0x8000_0000, 0xFFFF_FFFF, 0x0123_4567] {
+        if t_data(t_data_inv(y)) != y {
+            return Err("reference SM4 inverse round transform".into());
+        }
+    }
+    let b = c.block_with_state_at_round(17, [1, 2, 3, 4], true);
+    if c.round_trace(&b, 17, true).0 != 1 {
+        return Err("reference SM4 backward rounds".into());
     }
     Ok(())
 }
